@@ -10,6 +10,7 @@ ASSUMED = {
     'sync/atomic.*': 'sequentially consistent read/write of the addressed cell; Add wraps at the type width',
     '(*sync.Pool).Get/Put': 'Get returns an object no live reference points to; for linkedPool its buf/origin/next are nil (justified by the obligation at every Put site)',
     'runtime.Gosched': 'no effect',
+    '(*atomic.Value).Load/Store': 'a cell holding the last stored interface value (linearizable)',
 }
 
 
@@ -38,6 +39,8 @@ def mk_atomic(kind, t):
             e.store_loc(st, loc, nv)
             return cont(st, nv)
         if kind == 'CompareAndSwap':
+            e.apply_rely(fr, st, loc)
+            if hook: hook(fr, st, 'pre', loc, None, None, ins, site)
             old = e.load_loc(st, loc)
             ok = old == args[1]
             # fork so that token rules see a definite outcome
@@ -115,6 +118,21 @@ def pool_put(e, fr, st, ins, site, args, cont):
     return cont(st, None)
 
 
+def value_load(e, fr, st, ins, site, args, cont):
+    r = args[0]
+    v = e.load_loc(st, e.field_loc(st, r, 'sync/atomic.Value', 'v'))
+    return cont(st, v)
+
+
+def value_store(e, fr, st, ins, site, args, cont):
+    r = args[0]; v = args[1]
+    if not isinstance(v, IfaceV): raise Unsupported('atomic.Value.Store of %r' % (v,))
+    hook = getattr(e, 'value_store_hook', None)
+    if hook: hook(fr, st, r, v, ins, site)
+    e.store_loc(st, e.field_loc(st, r, 'sync/atomic.Value', 'v'), v)
+    return cont(st, None)
+
+
 def gosched(e, fr, st, ins, site, args, cont):
     return cont(st, None)
 
@@ -126,5 +144,7 @@ def install(e):
     e.externs['(*sync.Pool).Get'] = pool_get
     e.externs['(*sync.Pool).Put'] = pool_put
     e.externs['runtime.Gosched'] = gosched
+    e.externs['(*sync/atomic.Value).Load'] = value_load
+    e.externs['(*sync/atomic.Value).Store'] = value_store
     for k, v in ASSUMED.items():
         e.assumptions.add('assumed: %s — %s' % (k, v))
